@@ -41,6 +41,11 @@ def problems():
                         bounds=np.array([[-4.0, 4.0], [-4.0, 0.0], [-1.0, 4.0]]))
     out["quartic4"] = dict(f=lbfgsb.quartic, g=lbfgsb.quartic_grad, x0=np.array([1.0, -1.5, 0.7, 2.0]),
                            bounds=np.array([[-2.0, 2.0], [-2.0, 2.0], [0.5, 2.0], [-2.0, 2.5]]))
+    # objectives on which short line searches (small maxls) fail in mid-run
+    out["expdrop1"] = dict(f=lambda x: float(np.sum(x + np.exp(-10.0 * x))), g=lambda x: 1.0 - 10.0 * np.exp(-10.0 * x),
+                           x0=np.array([-0.5]), bounds=np.array([[-2.0, 2.0]]))
+    out["expdrop2"] = dict(f=lambda x: float(np.sum(x + np.exp(-10.0 * x))), g=lambda x: 1.0 - 10.0 * np.exp(-10.0 * x),
+                           x0=np.array([-0.5, -0.3]), bounds=np.array([[-2.0, 2.0], [-1.0, 3.0]]))
     return out
 
 
@@ -262,47 +267,66 @@ def _cfg_from(c):
 def scenario_single(c):
     """Replay a single-run scenario (optionally from a real checkpoint) on the battery and audit it."""
     out = []
-    for name, p in problems().items():
-        L = Logged(p)
-        ck = None
-        ck_obj = None
-        history = None
-        if c.get("checkpoint"):
-            first = run_once(p, dict(maxiter=c["ck_nit"], maxfun=10 ** 6, maxcor=c.get("ck_maxcor", c.get("maxcor", 10)), ftol=0.0, gtol=0.0), L=L)
-            if first["exc"] is not None:
-                out.append(dict(problem=name, error="first leg raised %r" % (first["exc"],)))
+    variants = [c]
+    if c.get("sweep"):
+        # budget scenarios: the symbolic trajectory (which line search fails when) cannot be forced on real
+        # kernels, so the neighbouring budgets are replayed too, on objectives whose short line searches fail
+        for mf in range(max(1, c["maxfun"] - 1), c["maxfun"] + 6):
+            for ml in sorted({c.get("maxls", 2), 1, 2, 3}):
+                for ckp in ((0, 1) if c.get("checkpoint") else (0,)):
+                    v = dict(c, maxfun=mf, maxls=ml, maxiter=max(c["maxiter"], 6))
+                    if not ckp:
+                        v.pop("checkpoint", None)
+                    if v != c:
+                        variants.append(v)
+    for v in variants:
+        for name, p in problems().items():
+            if v.get("sweep") and not name.startswith(("expdrop", "rosen")):
                 continue
-            ck_obj = first["res"]
-            ck = dict(nit=int(ck_obj.nit), nfev=int(ck_obj.nfev), njev=int(ck_obj.njev), fun=float(ck_obj.fun))
-            history = [(q.copy(), g.copy()) for q, g in L.gcalls]
-        f_start = ck["fun"] if ck else float(p["f"](np.clip(p["x0"], p["bounds"][:, 0], p["bounds"][:, 1])))
-        fts = [None]
-        if c.get("ftarget_kind", "none") != "none":
-            fts = [f_start + 1.0, f_start - 1e-3 * (1 + abs(f_start)), -1e300]
-        for ft in fts:
-            cfg = _cfg_from(c)
-            if ft is not None:
-                if c.get("ftarget_kind") == "callable":
-                    cfg["ftarget_callable"] = ft
-                else:
-                    cfg["ftarget"] = ft
-            gtol = cfg["gtol"]
-            if c.get("gtol_kind") == "callable":
-                cfg["gtol_callable"] = cfg.pop("gtol")
-            for cbk in ([c.get("callback_kind")] if c.get("callback_kind") not in ("choose",) else ["false", "true", ["true_at", 1]]):
-                L2 = L if ck is not None else Logged(p)
-                rec = run_once(p, dict(cfg), L=L2, checkpoint=copy.deepcopy(ck_obj) if ck_obj is not None and c.get("copy_checkpoint", True) else ck_obj,
-                               x0=ck_obj.x if ck_obj is not None else None, callback_kind=cbk)
-                if ck_obj is not None and c.get("copy_checkpoint", True) and rec["res"] is not None:
-                    pass
-                bad = audit(rec, p, c["maxiter"], c["maxfun"], gtol, ftarget=ft, ck=ck, ftarget_callable=c.get("ftarget_kind") == "callable",
-                            gtol_callable=c.get("gtol_kind") == "callable", maxcor=cfg["maxcor"], history=history)
-                if cbk not in (None, "false") and rec["res"] is not None and rec["res"].message == MSG["CALLBACK"] and not rec["states"]:
-                    bad["C04.callback_message_true"] = "callback message without a callback call"
-                out.append(dict(problem=name, ftarget=ft, callback=cbk, violated=bad,
-                                message=None if rec["res"] is None else rec["res"].message,
-                                nit=None if rec["res"] is None else int(rec["res"].nit), nfev=None if rec["res"] is None else int(rec["res"].nfev)))
+            _single_one(v, name, p, out)
     return dict(runs=out)
+
+
+def _single_one(c, name, p, out):
+    L = Logged(p)
+    ck = None
+    ck_obj = None
+    history = None
+    if c.get("checkpoint"):
+        first = run_once(p, dict(maxiter=c["ck_nit"], maxfun=10 ** 6, maxcor=c.get("ck_maxcor", c.get("maxcor", 10)), ftol=0.0, gtol=0.0), L=L)
+        if first["exc"] is not None:
+            out.append(dict(problem=name, error="first leg raised %r" % (first["exc"],)))
+            return
+        ck_obj = first["res"]
+        ck = dict(nit=int(ck_obj.nit), nfev=int(ck_obj.nfev), njev=int(ck_obj.njev), fun=float(ck_obj.fun))
+        history = [(q.copy(), g.copy()) for q, g in L.gcalls]
+    f_start = ck["fun"] if ck else float(p["f"](np.clip(p["x0"], p["bounds"][:, 0], p["bounds"][:, 1])))
+    fts = [None]
+    if c.get("ftarget_kind", "none") != "none":
+        fts = [f_start + 1.0, f_start - 1e-3 * (1 + abs(f_start)), -1e300]
+    for ft in fts:
+        cfg = _cfg_from(c)
+        if ft is not None:
+            if c.get("ftarget_kind") == "callable":
+                cfg["ftarget_callable"] = ft
+            else:
+                cfg["ftarget"] = ft
+        gtol = cfg["gtol"]
+        if c.get("gtol_kind") == "callable":
+            cfg["gtol_callable"] = cfg.pop("gtol")
+        cbks = [c.get("callback_kind")] if c.get("callback_kind") not in ("choose",) else ["false", "true", ["true_at", 1]]
+        for cbk in cbks:
+            L2 = L if ck is not None else Logged(p)
+            rec = run_once(p, dict(cfg), L=L2, checkpoint=copy.deepcopy(ck_obj) if ck_obj is not None else None,
+                           x0=ck_obj.x if ck_obj is not None else None, callback_kind=cbk)
+            bad = audit(rec, p, c["maxiter"], c["maxfun"], gtol, ftarget=ft, ck=ck, ftarget_callable=c.get("ftarget_kind") == "callable",
+                        gtol_callable=c.get("gtol_kind") == "callable", maxcor=cfg["maxcor"], history=history)
+            if cbk not in (None, "false") and rec["res"] is not None and rec["res"].message == MSG["CALLBACK"] and not rec["states"]:
+                bad["C04.callback_message_true"] = "callback message without a callback call"
+            out.append(dict(problem=name, ftarget=ft, callback=cbk, violated=bad,
+                            config={k: c[k] for k in ("maxiter", "maxfun", "maxls") if k in c}, restart=bool(c.get("checkpoint")),
+                            message=None if rec["res"] is None else rec["res"].message,
+                            nit=None if rec["res"] is None else int(rec["res"].nit), nfev=None if rec["res"] is None else int(rec["res"].nfev)))
 
 
 def _close(a, b, tol=1e-6):
